@@ -31,6 +31,8 @@ Spec == Init /\ [][Next]_tvars
 Cur == Trace[l - 1]
 NoHarnessErrors == l > 1 => Cur.errors = <<>>     \* e.g. a commit that never converges, a failed reopen
 SameResults == (l > 1 /\ CheckResults) => (Cur.results = ref.results /\ Cur.abs = ref.abs)
+\* C08: what a brand-new storage decodes from the final registers is what the run read through its cache
+ColdEqualsWarm == l > 1 => (Cur.cold = Cur.abs /\ Cur.coldc = Cur.warmc)     \* at the end and at every commit point
 SameRegisters == (l > 1 /\ CheckRegs) => Cur.regs = ref.regs
 
 TraceAccepted ==
